@@ -211,6 +211,14 @@ let pure_main () =
       let arg i = if i < Array.length f then hs f.(i) else [] in
       let r =
         match f.(0) with
+        | "E" ->
+            (* Frame.encode of every line, then Frame.feed on the result: hex of the bytes | framed lines | pending *)
+            let raw i = List.init (String.length (unhex f.(i))) (fun k -> n_of_int (Char.code (unhex f.(i)).[k])) in
+            let hexb (l : n list) = String.concat "" (List.map (fun c -> Printf.sprintf "%02x" (int_of_n c)) l) in
+            let bytes = List.concat (List.init (Array.length f - 1) (fun k -> encode_x (raw (k + 1)))) in
+            let (frames, rest) = feed_x [] bytes in
+            hexb bytes ^ " | " ^ String.concat " " (List.map (function FTooLong -> "ERR:toolong" | FLine l -> hexb l) frames)
+            ^ " | " ^ string_of_int (List.length rest)
         | "W" -> string_of_bool (wild_match_x (arg 1) (arg 2))
         | "WG" -> string_of_bool (glob_x (arg 1) (arg 2))
         | "N" -> js (normalize_mask_x (arg 1))
